@@ -9,8 +9,11 @@ import (
 
 func InitGenesis(ctx sdk.Context, k keeper.Keeper, state *types.GenesisState) {
 	var (
-		gaugeID       uint64
-		lendRewardsID uint64
+		gaugeID         uint64
+		lendRewardsID   uint64
+		lockerRewardsID uint64
+		vaultRewardsID  uint64
+		epochTimeID     uint64
 	)
 
 	k.SetParams(ctx, state.Params)
@@ -28,10 +31,22 @@ func InitGenesis(ctx sdk.Context, k keeper.Keeper, state *types.GenesisState) {
 	}
 
 	for _, item := range state.LockerExternalRewards {
+		if item.Id > lockerRewardsID {
+			lockerRewardsID = item.Id
+		}
+		if item.EpochId > epochTimeID {
+			epochTimeID = item.EpochId
+		}
 		k.SetExternalRewardsLockers(ctx, item)
 	}
 
 	for _, item := range state.VaultExternalRewards {
+		if item.Id > vaultRewardsID {
+			vaultRewardsID = item.Id
+		}
+		if item.EpochId > epochTimeID {
+			epochTimeID = item.EpochId
+		}
 		k.SetExternalRewardVault(ctx, item)
 	}
 
@@ -58,11 +73,18 @@ func InitGenesis(ctx sdk.Context, k keeper.Keeper, state *types.GenesisState) {
 		if item.Id > lendRewardsID {
 			lendRewardsID = item.Id
 		}
+		if item.EpochId > epochTimeID {
+			epochTimeID = item.EpochId
+		}
 		k.SetExternalRewardLend(ctx, item)
 	}
 
 	k.SetGaugeID(ctx, gaugeID)
 	k.SetExternalRewardsLendID(ctx, lendRewardsID)
+	// id counters of the other programmes: without them the next programme re-uses id 1 and overwrites a live one
+	k.SetExternalRewardsLockersID(ctx, lockerRewardsID)
+	k.SetExternalRewardsVaultID(ctx, vaultRewardsID)
+	k.SetEpochTimeID(ctx, epochTimeID)
 }
 
 func ExportGenesis(ctx sdk.Context, k keeper.Keeper) *types.GenesisState {
